@@ -101,6 +101,17 @@ type mbank struct {
 	sLen    int
 	hiS     int
 	isRB    bool
+	// trail: run-length-encoded sequence of operation kinds applied to this physical bank (runs capped at 3),
+	// part of the canonical state so that states are merged only when they differ in the length of long runs
+	trail []byte
+}
+
+func (b *mbank) note(kind byte) {
+	n := len(b.trail)
+	if n >= 3 && b.trail[n-1] == kind && b.trail[n-2] == kind && b.trail[n-3] == kind {
+		return
+	}
+	b.trail = append(b.trail, kind)
 }
 
 type world struct {
@@ -194,6 +205,11 @@ func (w *world) alloc(b *mbank, t reflect.Type) *e1fail {
 	w.seq++
 	la := liveAlloc{addr: addr, size: size, p: p, pattern: w.seq*0x0101010101 + 7}
 	if t == nodeT {
+		b.note('N')
+	} else {
+		b.note('I')
+	}
+	if t == nodeT {
 		la.isNode = true
 		n := (*node)(p)
 		n.P, n.S, n.N = &anchor, "node-pattern", la.pattern
@@ -246,6 +262,11 @@ func (w *world) toString(b *mbank, data []byte) *e1fail {
 		}
 	}
 	b.strs = append(b.strs, liveStr{s: s, want: string(data)})
+	if len(data) > 100 {
+		b.note('L')
+	} else {
+		b.note('s')
+	}
 	b.sLen += len(data)
 	if b.sLen > b.hiS {
 		b.hiS = b.sLen
@@ -272,6 +293,7 @@ func (w *world) apply(o op, poolAsked *int) *e1fail {
 		return w.toString(b, longStr)
 	case oClose:
 		b.bank.Close()
+		b.note('C')
 		b.open = false
 		b.allocs, b.strs = nil, nil
 		b.nInt, b.nNode, b.sLen = 0, 0, 0
@@ -376,7 +398,7 @@ func (w *world) key() string {
 		return "?"
 	}
 	for _, mb := range w.all {
-		parts = append(parts, fmt.Sprintf("%s:%d/%d,%d/%d,%d/%d", role(mb), mb.nInt, class(mb.hiInt), mb.nNode, class(mb.hiNode), mb.sLen, mb.hiS))
+		parts = append(parts, fmt.Sprintf("%s:%d/%d,%d/%d,%d/%d,%s", role(mb), mb.nInt, class(mb.hiInt), mb.nNode, class(mb.hiNode), mb.sLen, mb.hiS, mb.trail))
 	}
 	sort.Strings(parts)
 	return strings.Join(parts, "|")
@@ -665,7 +687,7 @@ func init() {
 		},
 		Assumptions: []string{
 			"double Close of one bank and use after Close are API misuse and excluded from the alphabet",
-			"canonical state abstracts arena fill levels into {0, <=16, <=32, >32} high-water classes: banks in the same class have the same growth behaviour (arenas start at 16 and double)",
+			"canonical state = per physical bank (role, exact fill levels, high-water classes {0,<=16,<=32,>32}, and the run-length-encoded sequence of operation kinds applied to it with runs capped at 3) + pool order: two histories are merged only if they differ in the length of runs of >=3 identical operations on a bank, so order-dependent hidden state (e.g. a 'last type' cache) is not abstracted away",
 			"the shim's Pool.Get may return a fresh object or any pooled one: a superset of what the real sync.Pool may do",
 		},
 		NumCases: func(tier string) int { return len(tasks(tier)) },
